@@ -243,7 +243,7 @@ def gencheckWith (files : Option (List XFile)) (version : List XFile → Nat)
     | some facts =>
       let ents := set.flatMap (fun f => f.enums.flatMap (·.entries))
       let ents := ents.foldl (fun acc e => if acc.any (·.name == e.name) then acc else acc ++ [e]) []
-      match ents.mapM (fun e => (value e.value).map (fun v => e.name ++ "=" ++ toString v)) with
+      match ents.mapM (fun e => (value e.value).map (fun v => e.name ++ "=" ++ toString v ++ ":T")) with
       | none => "ERR"
       | some evs =>
         s!"v={version order};" ++ ";".intercalate ((sortById facts).map (·.2)) ++ ";E:" ++ ",".intercalate evs
@@ -488,7 +488,8 @@ def step (ds : DState) (line : String) : DState × String :=
           "O" :: (rs.filter (fun r => match r with | .terr .eof => false | _ => true)).map encRRes
         let obs (t : String) : List String := if t == "-" then [] else t.splitOn "~"
         let verdict (oracle : Bool) : String :=
-          if Spec.evLegal (mode == "drain") (evs oracle) "C(nil)" (obs pre) (obs post) then "ok"
+          if (if mode == "eof" then Spec.evLegalEnd (evs oracle) "C(eof)" (obs pre) (obs post)
+              else Spec.evLegal (mode == "drain") (evs oracle) "C(nil)" (obs pre) (obs post)) then "ok"
           else "violation: observed [" ++ pre ++ " | " ++ post ++ "] expected " ++ "~".intercalate (evs oracle) ++ "~C(nil)"
         verdict false ++ "\t" ++ verdict true
       | _, _ => "bad-op")
@@ -569,9 +570,10 @@ def step (ds : DState) (line : String) : DState × String :=
           else if mode == "pause" then .pause else .bad
         let closeSeen := (evs.splitOn ";").map (fun e => (e.splitOn ",").any (fun x => x.startsWith "C("))
         -- the item whose write failed: the `a`-th item addressed to the victim (fail), or the unencodable item (bad)
-        let failedItem := if mode == "bad" then (badIdx.toNat?.getD 0) else
-          (((Spec.Fan.expected p v).filter (·.1 == 0)).map (·.2))[a]?.getD 0
-        let r := if Spec.Fan.stallLegal p 9 m v a failedItem o closeSeen then "ok" else "violation"
+        -- (fail: `badIdx` carries the number of consecutive failing writes)
+        let failedItems := if mode == "bad" then [] else
+          ((((Spec.Fan.expected p v).filter (·.1 == 0)).map (·.2)).drop a).take (badIdx.toNat?.getD 1)
+        let r := if Spec.Fan.stallLegal p 9 m v a failedItems o closeSeen then "ok" else "violation"
         r ++ "\t" ++ r
       | _, _, _, _ => "bad-op")
   | ["defenum", name, form, consts] =>
